@@ -37,6 +37,7 @@ let () =
       | "N" :: slot :: ask :: _ :: rest -> run (OpNew (nat_of_int (int_of_string slot), vals_of rest)) ask
       | ["I"; slot; ask; k] -> run (OpInc (nat_of_int (int_of_string slot), z_of_string k)) ask
       | "U" :: slot :: ask :: _ :: rest -> run (OpUpd (nat_of_int (int_of_string slot), vals_of rest)) ask
+      | "A" :: slot :: ask :: _ :: rest -> run (OpReport (nat_of_int (int_of_string slot), vals_of rest)) ask
       | ["C"; src; dst; ask] -> run (OpCopy (nat_of_int (int_of_string src), nat_of_int (int_of_string dst))) ask
       | ["R"; slot; ask; r] -> run (OpRounds (nat_of_int (int_of_string slot), nat_of_int (int_of_string r))) ask
       | l -> failwith ("bad line: " ^ String.concat " " l)) lines
